@@ -392,6 +392,9 @@ def callG (fuel : Nat) (F : GFile) (w : GWorld) (f : GVal) (args : List GVal) : 
     | none =>
       match name, args with
       | "fmt.Sprintf", .str fmt :: rest => .ok (.str (sprintf fmt.toList rest "")) w
+      | "strings.ReplaceAll", [.str s, .str old, .str new] =>
+        if old.isEmpty then .fail (.stuck "go: strings.ReplaceAll with an empty pattern is not modelled") w
+        else .ok (.str (s.replace old new)) w
       | "fmt.Print", [.str s] => .ok .void { w with out := w.out ++ s }
       | "fmt.Println", [.str s] => .ok .void { w with out := w.out ++ s ++ "\n" }
       | "println", _ => .ok .void w          -- builtin println writes to stderr
